@@ -258,9 +258,11 @@ void vfps::FokkerPlanckMap::applyTo(PhaseSpace::Position &pos) const
         for (std::remove_const<decltype(_ip)>::type j=0; j<_ip; j++) {
             hi h = _hinfo[yi*_ip+j];
             charge += data_in[offs+h.index]*h.weight;
+            // displacement of the charge that arrives in this row: from the
+            // source row (h.index) to yi, the same sense as in approximation1
             offset += data_in[offs+h.index]*h.weight
-                    * (static_cast<std::make_signed<meshindex_t>::type>(h.index)
-                      - yi);
+                    * (yi
+                      - static_cast<std::make_signed<meshindex_t>::type>(h.index));
         }
         offset /= charge;
         pos.y = std::max( static_cast<meshaxis_t>(1)
